@@ -48,7 +48,7 @@ def drive(strategy, body, n, seed_value, case_timeout=None):
     import signal
     import threading
 
-    limit = int(case_timeout or os.environ.get("VERIF_CASE_TIMEOUT", "120"))
+    limit = int(case_timeout or os.environ.get("VERIF_CASE_TIMEOUT", "60"))
     use_alarm = threading.current_thread() is threading.main_thread() and hasattr(signal, "SIGALRM")
     if use_alarm:
         signal.signal(signal.SIGALRM, _alarm)
